@@ -6,13 +6,14 @@ import BromeliaVerif.Drv.Cmd
 import BromeliaVerif.Drv.Cont
 import BromeliaVerif.Drv.Route
 import BromeliaVerif.Drv.Cfg
+import BromeliaVerif.Drv.Psm
 /-! Line-protocol driver: one operation per input line, one answer per output line.
 Built as the native executable `driver`; imports models, specifications and generated tables only. -/
 open BV.Drv
 
 def step (line : String) : String :=
   let ws := (line.splitOn " ").filter (· ≠ "")
-  let handlers : List (List String → Option String) := [opC17, opC18, opC20, opCodec, opC02, opCmd, opCont, opRoute, opCfg]
+  let handlers : List (List String → Option String) := [opC17, opC18, opC20, opCodec, opC02, opCmd, opCont, opRoute, opCfg, opPsm]
   match handlers.findSome? (fun h => h ws) with
   | some r => r
   | none => "bad-op"
